@@ -5,6 +5,8 @@ import io
 import json
 import os
 import re
+import signal
+import threading
 import zlib
 import sys
 from fractions import Fraction
@@ -112,6 +114,17 @@ def site_map(process):
 
 
 LOG_RE = re.compile(r"^(Task|Service) (.*) with UUID '(.*)' (started|finished)\.$")
+
+
+CALL_TIMEOUT = 30.0      # seconds per API call (a normal call takes milliseconds)
+
+
+class CallTimeout(Exception):
+    pass
+
+
+def _on_alarm(signum, frame):
+    raise CallTimeout("the call did not return within %.0f s" % CALL_TIMEOUT)
 
 
 class RecObserver(Observer):
@@ -401,9 +414,20 @@ class ImplRun:
 
     def call(self, op):
         """op: ('start',) | ('finish', canonical service id) | ('junk', kind)
-        | ('register', kind, lid) | ('attach', o) | ('detach', o)"""
-        with contextlib.redirect_stdout(io.StringIO()):
-            return self._call(op)
+        | ('register', kind, lid) | ('attach', o) | ('detach', o).
+        A call that does not return within CALL_TIMEOUT seconds raises CallTimeout (a scheduler
+        that spins for ever is a failing input like any other, not a check that never ends)."""
+        use_alarm = threading.current_thread() is threading.main_thread()
+        if use_alarm:
+            old = signal.signal(signal.SIGALRM, _on_alarm)
+            signal.setitimer(signal.ITIMER_REAL, CALL_TIMEOUT)
+        try:
+            with contextlib.redirect_stdout(io.StringIO()):
+                return self._call(op)
+        finally:
+            if use_alarm:
+                signal.setitimer(signal.ITIMER_REAL, 0)
+                signal.signal(signal.SIGALRM, old)
 
     def _call(self, op):
         if self.reoracle and self.ncalls > 0:
